@@ -200,6 +200,9 @@ Inductive rstmt :=
 | RBreak
 | RBlock (l : list rstmt).
 
+Definition is_param (x : Z) : bool :=
+  match map_get (ce_oparams env) x, map_get (ce_iparams env) x with None, None => false | _, _ => true end.
+
 Fixpoint define_vars (lhs : list (Z * ty)) (st : cstate) : cres (cstate * code) :=
   (* lhs is given in reverse source order (the compiler iterates from the last to the first) *)
   match lhs with
@@ -208,7 +211,8 @@ Fixpoint define_vars (lhs : list (Z * ty)) (st : cstate) : cres (cstate * code) 
       match index_of Z.eqb x (cs_locals st) 0 with
       | Some _ => CErr EShadowing
       | None =>
-          if negb (supported t) then CErr EUnsupportedType
+          if is_param x then CErr EShadowing
+          else if negb (supported t) then CErr EUnsupportedType
           else if len (cs_locals st) =? max_locals cfg then CErr ETooManyLocals
           else
             let id := len (cs_locals st) in
@@ -249,35 +253,39 @@ Fixpoint rstmt_of (s : stmt) (st : cstate) {struct s} : cres (cstate * rstmt) :=
       end
   | SAssign tok lhs nrhs rhs =>
       if negb (nrhs =? 1) then CErr EAssignShape else
-      do '(st1, c) <- cexpr rhs st ;;
       match tok with
-      | ADefine => do '(st2, cs) <- define_vars (rev lhs) st1 ;; COk (st2, RCode (c ++ cs))
-      | _ => do cs <- assign_vars (rev lhs) st1 ;; COk (st1, RCode (c ++ cs))
+      | ADefine => do '(st1, c) <- cexpr rhs st ;;
+                   do '(st2, cs) <- define_vars (rev lhs) st1 ;; COk (st2, RCode (c ++ cs))
+      | AAssign => do '(st1, c) <- cexpr rhs st ;;
+                   do cs <- assign_vars (rev lhs) st1 ;; COk (st1, RCode (c ++ cs))
+      | _ => CErr EAssignShape
       end
   | SIncDec x inc =>
       match index_of Z.eqb x (cs_locals st) 0 with
       | None => CErr ENotLocal
       | Some id => COk (st, RCode [I (pick inc KIncLocal KDecLocal) id])
       end
-  | SIf _ c t e =>
-      (* stmt.Init is not looked at by compileIfStmt *)
-      do '(st1, cc) <- cexpr c st ;;
+  | SIf init c t e =>
+      do '(st0, ri) <- match init with
+                       | None => COk (st, [])
+                       | Some i => do '(st', r) <- rstmt_of i st ;; COk (st', [r])
+                       end ;;
+      do '(st1, cc) <- cexpr c st0 ;;
       do '(st2, rt) <- rblock_with rstmt_of t st1 ;;
       match e with
-      | None => COk (st2, RIf cc rt None)
-      | Some e' => do '(st3, re) <- rstmt_of e' st2 ;; COk (st3, RIf cc rt (Some re))
+      | None => COk (st2, RBlock (ri ++ [RIf cc rt None]))
+      | Some e' => do '(st3, re) <- rstmt_of e' st2 ;; COk (st3, RBlock (ri ++ [RIf cc rt (Some re)]))
       end
   | SFor init c post body =>
       match c, init, post with
-      | Some _, Some _, Some _ => CErr ECStyleFor
       | Some c', None, None =>
           (* the body is emitted before the condition *)
           do '(st1, rb) <- rblock_with rstmt_of body st ;;
           do '(st2, cc) <- cexpr c' st1 ;;
           COk (st2, RFor (Some cc) rb)
-      | _, _, _ =>
-          (* every other combination is compiled as `for { body }` *)
+      | None, None, None =>
           do '(st1, rb) <- rblock_with rstmt_of body st ;; COk (st1, RFor None rb)
+      | _, _, _ => CErr ECStyleFor
       end
   | SBreak => COk (st, RBreak)
   | SExpr e =>
@@ -366,13 +374,16 @@ Record cfunc := mkcfunc {
   cf_nint : Z
 }.
 
-Fixpoint split_params (ps : list (Z * ty)) (op ip : list (Z * Z)) : cres (list (Z * Z) * list (Z * Z)) :=
+(* parameters are numbered per stack in declaration order; the name maps keep the last index of a repeated
+   (blank) name *)
+Fixpoint split_params (ps : list (Z * ty)) (op ip : list (Z * Z)) (nobj nint : Z)
+  : cres (list (Z * Z) * list (Z * Z) * Z * Z) :=
   match ps with
-  | [] => COk (op, ip)
+  | [] => COk (op, ip, nobj, nint)
   | (x, t) :: ps' =>
       if negb (supported t) then CErr EUnsupportedType
-      else if is_int t then split_params ps' op (map_set ip x (len ip))
-      else split_params ps' (map_set op x (len op)) ip
+      else if is_int t then split_params ps' op (map_set ip x nint) nobj (nint + 1)
+      else split_params ps' (map_set op x nobj) ip (nobj + 1) nint
   end.
 
 Definition jumps_fit (c : code) : bool :=
@@ -387,12 +398,12 @@ Definition compile_fun (cfg : config) (f : fundecl) : cres cfunc :=
            | _ => CErr EMultiResult
            end ;;
   if negb (supported rt) then CErr EUnsupportedType else
-  do '(op, ip) <- split_params (fd_params f) [] [] ;;
+  do '(op, ip, nobj, nint) <- split_params (fd_params f) [] [] 0 0 ;;
   let env := mkce op ip (ty_eqb rt TVoid) in
   do '(st, rb) <- rblock cfg env (fd_body f) (mkcs [] [] []) ;;
   let c := genblock cfg rb 0 ++ (if ty_eqb rt TVoid then [I0 KReturn] else []) in
   if negb (jumps_fit c) then CErr ETooBig else
-  COk (mkcfunc c (cs_consts st) (cs_iconsts st) (len op) (len ip)).
+  COk (mkcfunc c (cs_consts st) (cs_iconsts st) nobj nint).
 
 Fixpoint compile_prog (cfg : config) (p : program) : cres (list cfunc) :=
   match p with
